@@ -243,6 +243,11 @@ func encodeText(text []rune, submode subMode) (subMode, []int) {
 	}
 	if len(tmp)%2 != 0 {
 		result = append(result, (h*30)+29)
+		if submode == subPunct {
+			// in the punctuation sub-mode 29 is not a shift but the latch back to
+			// alpha, so the text that follows (e.g. after a byte shift) starts there
+			submode = subUpper
+		}
 	}
 	return submode, result
 }
